@@ -40,6 +40,8 @@ type RunConfig struct {
 	Byz           int     `json:"byz"`
 	PCommitSubmit float64 `json:"p_commit_submit"`
 	Quorumless    bool    `json:"quorumless"`
+	NilTx         bool    `json:"nil_tx"`
+	Variants      int     `json:"variants"`
 	TxStyle       string  `json:"tx_style"` // "unique" | "mixed"
 	FairSuffix    bool    `json:"fair_suffix"`
 	Shadow        int     `json:"shadow"` // shadow-bootstrap checks per run (C11)
